@@ -1802,3 +1802,27 @@ func c06AcceptHasHandler(r *core.Run, rule string, root []*ssa.Function, ro *mux
 		r.Bad(rule, "matchNode", "exact-accept-sites-found", "-", "no exact-match accept site found (rule went vacuous)")
 	}
 }
+
+// c06AddValidates: the one function through which every handler registration
+// passes (it calls the trie walk and stores the handler) panics on a pattern
+// Pattern.IsValid rejects before the walk touches the trie (C06.R3's clause;
+// shared with C17.G10). Validation in one public entry point only leaves the
+// other entry points (AddHandler) with the walk's weaker first-byte scan.
+func c06AddValidates(r *core.Run, rule string, ro *muxRoles) {
+	p := r.P
+	add := ro.add
+	if add == nil || ro.fetch == nil {
+		r.Unres(rule, "Mux.add/fetch", "not resolved")
+		return
+	}
+	var fetchCall ssa.Instruction
+	for _, c := range helperCalls(p, add) {
+		if c.Common().StaticCallee() == ro.fetch {
+			if l := p.Lift(c, add); len(l) > 0 {
+				fetchCall = l[0]
+			}
+		}
+	}
+	g, ok := panicsUnlessCall(add, "IsValid")
+	r.Check(ok && fetchCall != nil && core.Dominates(g, fetchCall), rule, core.FuncName(add), "IsValid-panic-before-fetch", p.Pos(add.Pos()), "an invalid pattern panics before the trie is touched, whichever public method registered it", "the common registration function does not reject patterns Pattern.IsValid rejects before inserting nodes: a public entry point that does not validate on its own (AddHandler) registers patterns with a wildcard character in the middle of a token, '?', spaces or non-ASCII bytes, hands them to OnRegister and routes names no validator accepts")
+}
